@@ -922,6 +922,8 @@ class Interp:
             info = self.obj_class(obj)
             if info and "__getitem__" in info.methods:
                 return self.call_method_node(st, obj, info, "__getitem__", [idx], {})
+            if info is None and ("%s.__getitem__" % obj.cls) in self.contracts:
+                return self.contracts["%s.__getitem__" % obj.cls](self, st, [obj, idx], {})
         if obj is None:
             self.raise_("TypeError", "'NoneType' is not subscriptable", node)
         raise Unsupported("subscript of %r" % type(obj).__name__)
